@@ -103,6 +103,7 @@ type vfdNet struct {
 	nDropped   atomic.Int64
 	maxLatNs   atomic.Int64 // max (delivery end - send) over bundles since the last reset
 	nPanics    atomic.Int64
+	nStuck     atomic.Int64
 	// onPanic is told about a panic of the real code inside a delivery (what, destination, panic value, the
 	// innermost frame of package dkg, full stack). The delivery is then answered with an error.
 	onPanic func(what, dst, val, where, stack string)
@@ -223,6 +224,22 @@ func (n *vfdNet) addCounters(run *vfRun) {
 	run.Count("bundles_slow_link", n.nSlow.Load())
 	run.Count("bundles_dropped", n.nDropped.Load())
 	run.Count("deliveries_panicked", n.nPanics.Load())
+	run.Count("deliveries_stuck_over_2s", n.nStuck.Load())
+}
+
+// begin marks a delivery as in flight; the returned func ends it. A delivery that has not returned after 2 s is
+// given up for pacing purposes (counted in deliveries_stuck): a handler of the real code that blocks for ever must
+// not make every later quiesce() run into its bound.
+func (n *vfdNet) begin() func() {
+	n.inflight.Add(1)
+	var once sync.Once
+	t := time.AfterFunc(2*time.Second, func() {
+		once.Do(func() { n.inflight.Add(-1); n.nStuck.Add(1) })
+	})
+	return func() {
+		t.Stop()
+		once.Do(func() { n.inflight.Add(-1) })
+	}
 }
 
 // quiesce waits until no delivery is in flight and no gossip retry is pending. It is only a pacing device
@@ -290,13 +307,32 @@ func (n *vfdNet) lookup(addr string) *vfdNode {
 	return n.nodes[addr]
 }
 
-func (n *vfdNet) closeAll() {
+// closeAll closes every node; returns the addresses whose Process.Close() did not return within 3 s (the
+// goroutine is then left behind; see vfdBlockedFrame for the evidence).
+func (n *vfdNet) closeAll() []string {
 	n.mu.Lock()
 	nodes := append([]*vfdNode(nil), n.order...)
 	n.mu.Unlock()
+	var blocked []string
 	for _, nd := range nodes {
-		nd.close()
+		if !nd.close() {
+			blocked = append(blocked, nd.addr)
+		}
 	}
+	return blocked
+}
+
+// vfdBlockedFrame returns the stack of the first goroutine whose stack contains `needle` (from a full dump).
+func vfdBlockedFrame(needle string, max int) string {
+	for _, g := range strings.Split(vfGoroutineDump(), "\n\n") {
+		if strings.Contains(g, needle) {
+			if len(g) > max {
+				g = g[:max]
+			}
+			return g
+		}
+	}
+	return ""
 }
 
 // ---------------------------------------------------------------- the client given to each Process
@@ -316,8 +352,7 @@ func vfdSleepMs(ms int) {
 
 func (c *vfdClient) Packet(_ context.Context, p net.Peer, packet *pdkg.GossipPacket, _ ...grpc.CallOption) (*pdkg.EmptyDKGResponse, error) {
 	n := c.net
-	n.inflight.Add(1)
-	defer n.inflight.Add(-1)
+	defer n.begin()()
 	dst := p.Address()
 	n.mu.Lock()
 	s := n.sched
@@ -360,10 +395,10 @@ func (c *vfdClient) Packet(_ context.Context, p net.Peer, packet *pdkg.GossipPac
 		})
 		if dup {
 			n.nDup.Add(1)
-			n.inflight.Add(1)
+			end2 := n.begin()
 			cp2 := proto.Clone(packet).(*pdkg.GossipPacket)
 			go func() {
-				defer n.inflight.Add(-1)
+				defer end2()
 				vfdSleepMs(dupDelay)
 				if dest.broken.Load() || dest.closed.Load() {
 					return
@@ -482,23 +517,22 @@ func (c *vfdClient) BroadcastDKG(_ context.Context, p net.Peer, in *pdkg.DKGPack
 	}
 	if dup {
 		n.nDup.Add(1)
-		n.inflight.Add(1)
+		end := n.begin()
 		go func() {
-			defer n.inflight.Add(-1)
+			defer end()
 			_ = deliver("b2:", delay+dupDelay)
 		}()
 	}
 	if async {
 		n.nAsync.Add(1)
-		n.inflight.Add(1)
+		end := n.begin()
 		go func() {
-			defer n.inflight.Add(-1)
+			defer end()
 			_ = deliver("ba:", delay)
 		}()
 		return &pdkg.EmptyDKGResponse{}, nil
 	}
-	n.inflight.Add(1)
-	defer n.inflight.Add(-1)
+	defer n.begin()()
 	if err := deliver("b:", delay); err != nil {
 		return nil, err
 	}
@@ -586,13 +620,23 @@ func (n *vfdNet) addNode(addr string, keyRng *vfRng, withTap bool) (*vfdNode, er
 	return nd, nil
 }
 
-func (nd *vfdNode) close() {
+func (nd *vfdNode) close() bool {
 	if nd.closed.Swap(true) {
-		return
+		return true
 	}
 	nd.broken.Store(true)
-	defer func() { _ = recover() }()
-	nd.proc.Close()
+	done := make(chan struct{})
+	go func() {
+		defer close(done)
+		defer func() { _ = recover() }()
+		nd.proc.Close()
+	}()
+	select {
+	case <-done:
+		return true
+	case <-time.After(3 * time.Second):
+		return false
+	}
 }
 
 func (nd *vfdNode) ctxCmd(c *pdkg.DKGCommand) error {
